@@ -92,7 +92,7 @@ def call_traced(thunk, ws=None):
         names.add(_h5name(ws))
     mine = [c for c in t.calls if ws is None or c["ws"] == id(ws)]
     ents = [e for e in t.entries if ws is None or os.path.realpath(e["hfile"]) in names]
-    return {"calls": [[c["fn"], c["mode"], c["file"], c["line"], c["handle"], c["out"], c["repack"]] for c in mine],
+    return {"calls": [[c["fn"], c["mode"], c["file"], c["line"], c["handle"], c["out"], c["repack"], c["in_close"]] for c in mine],
             "entries": [[e["fn"], e["hmode"], e["out"]] for e in ents],
             "foreign_calls": len(t.calls) - len(mine), "foreign_entries": len(t.entries) - len(ents),
             "exc": exc, "msg": msg}
